@@ -44,6 +44,15 @@ def parseAct : Nat → List Char → Option (Act × List Char)
     match String.ofList word with
     | "collect" => some (.collect, rest)
     | "fail" => some (.fail, rest)
+    -- guarded vault entry points sent by the borrower from inside its callback (`Callback(AfterTrade)`,
+    -- `UpdateConfig`, direct `Withdraw {}`): the vault refuses them whatever the loan state, which on the
+    -- model is a message that errors (and takes the loan with it)
+    | "xcfg" => some (.fail, rest)
+    | "xwd" => some (.fail, rest)
+    | "xcb" => do
+        let r ← expect ':' rest; let (_, r) ← takeNat r
+        let r ← expect ':' r; let (_, r) ← takeNat r
+        pure (.fail, r)
     | "pay" => do let r ← expect ':' rest; let (n, r) ← takeNat r; pure (.pay n, r)
     | "dep" => do let r ← expect ':' rest; let (n, r) ← takeNat r; pure (.deposit n, r)
     | "wd" => do let r ← expect ':' rest; let (n, r) ← takeNat r; pure (.withdraw n, r)
